@@ -6,8 +6,8 @@ package vh
 //
 //	int   M in "", int8..int64, uint..uint64, float32, float64, named
 //	str   M in "", named, bytes, stringer
-//	list  M in "", []int, []string, []float64, [3]int, []map
-//	hash  M in "", map[string]int, map[string]string, map[int]string, map[int64]string, map[uint64]string, map[iface], struct, ptrstruct, nilptrstruct, nilptrmap, outer, meth, ptrmeth
+//	list  M in "", []int, []string, []float64, [3]int, []map, named[]iface, named[]string, named[]int
+//	hash  M in "", map[string]int, map[string]string, map[int]string, map[int64]string, map[uint64]string, map[iface], struct, ptrstruct, nilptrstruct, nilptrmap, outer, meth, ptrmeth, namedmap
 //	ptr   pointer to A[0]      time  I = unix seconds (UTC)
 
 import (
@@ -17,6 +17,13 @@ import (
 	"strings"
 	"time"
 )
+
+// named collection types (a caller's `type Row []interface{}` converts to the unnamed type, so
+// code that converts instead of copying shares the caller's array)
+type zRow []interface{}
+type zNames []string
+type zInts []int
+type zDict map[string]interface{}
 
 type zNamedInt int
 type zNamedStr string
@@ -121,6 +128,24 @@ func zooGo(e *E, variant int) interface{} {
 				out[i] = int(a.I)
 			}
 			return out
+		case "named[]iface":
+			out := make(zRow, len(e.A), len(e.A)+3)
+			for i, a := range e.A {
+				out[i] = zooGo(a, variant)
+			}
+			return out
+		case "named[]string":
+			out := make(zNames, len(e.A), len(e.A)+3)
+			for i, a := range e.A {
+				out[i] = a.S
+			}
+			return out
+		case "named[]int":
+			out := make(zInts, len(e.A), len(e.A)+3)
+			for i, a := range e.A {
+				out[i] = int(a.I)
+			}
+			return out
 		case "[]string":
 			out := make([]string, len(e.A), len(e.A)+3)
 			for i, a := range e.A {
@@ -191,6 +216,12 @@ func zooGo(e *E, variant int) interface{} {
 			out := map[uint64]string{}
 			for _, i := range idx {
 				out[^uint64(0)-uint64(i)] = e.A[i].S
+			}
+			return out
+		case "namedmap":
+			out := zDict{}
+			for _, i := range idx {
+				out[e.Ks[i]] = zooGo(e.A[i], variant)
 			}
 			return out
 		case "map[iface]":
